@@ -12,7 +12,7 @@ def run(tier, argv):
     plans = [("a", ["f2", "fs", "fd"], "all", 2), ("b", ["fa", "fvf", "fc", "fn3", "fb", "fs2", "fsk"], "few", 1),
              ("c", ["sc", "sc2", "cTF", "fcg", "fch"], "few", 1)]            # c: the trace's own gen_fn is a Scan / a Cond (recorded arguments)
     if tier != "quick":
-        plans = [("a", ["f2", "fs", "fd", "fa", "fc"], "all", 2), ("b", ["fvf", "fn3", "fv", "fr", "fsc", "cTF", "fvs", "fs2", "fe", "fve"], "few", 2),
+        plans = [("a", ["f2", "fs", "fd", "fa", "fc"], "all", 2), ("b", ["fvf", "fn3", "fv", "fr", "fsc", "cTF", "fs2", "fe", "fve"], "few", 2),
                  ("c", ["sc", "sc2", "cTF", "c2", "fcg", "fch", "fcv"], "few", 2)]
     for tag, progs, sims, maxc in plans:
         cfg = gficheck.write_cfg(f"C03_{tier}_{tag}.cfg", progs, 2, ["simulate", "update"], maxc, "all", INV, sim_scripts=sims)
